@@ -725,36 +725,6 @@ Section RunP.
     clearbody s1. unfold blown. rewrite (P_fuse H1). exact H1.
   Qed.
 
-  (* ------------------------------------------------------------------ the start of an engine *)
-
-  Definition fresh : st :=
-    mkSt Running 0 SNewHeight (-1) None (-1) None [] (-1) [] false None None None
-         (mkWal [] []) (mkWal [] []) (mkWal [] []) [] O [] None None [].
-
-  Lemma restart_init :
-    restart n own blocks delay init = run n own blocks delay (fuel) AEnterPropose (new_step STxWait fresh).
-  Proof. reflexivity. Qed.
-
-  Lemma P_fresh T : Sim init T -> TM.lock T i = None -> P fresh.
-  Proof.
-    intros H L. constructor.
-    - constructor; cbn; [intros ? []|constructor|].
-      intros _ _. constructor; cbn; try (intros; contradiction); intros; discriminate.
-    - constructor; cbn; auto.
-      + intros r p Hp. inversion Hp.
-      + intro Hx; contradiction.
-      + intros; discriminate.
-      + discriminate.
-      + intros; discriminate.
-    - exists T. destruct H. constructor; auto.
-  Qed.
-
-  Lemma P_restart_init T : Sim init T -> TM.lock T i = None -> P (restart n own blocks delay init).
-  Proof.
-    intros H L. rewrite restart_init. apply run_P; [|constructor; exact I].
-    apply P_new_step; [split; discriminate|discriminate|]. eapply P_fresh; eauto.
-  Qed.
-
   (* ------------------------------------------------------------------ crash (between events) *)
 
   Lemma Forall_crash {A} (Q : A -> Prop) w k (f : wrec -> A) :
